@@ -303,6 +303,19 @@ func (s *recStream) Recv() (*storepb.SeriesResponse, error) {
 	return resp, err
 }
 
+// safeServer turns a panic of the store under test into an error of the Series call (reported as select-error: partial
+// response is disabled), instead of a crash of the goroutine of the proxy that pulls the in-process stream.
+type safeServer struct{ storepb.StoreServer }
+
+func (s safeServer) Series(r *storepb.SeriesRequest, srv storepb.Store_SeriesServer) (err error) {
+	defer func() {
+		if p := recover(); p != nil {
+			err = fmt.Errorf("panic in TSDBStore.Series: %v", p)
+		}
+	}()
+	return s.StoreServer.Series(r, srv)
+}
+
 // validateTSDB panics on a case (replay artefact) that family C cannot build.
 func (c Case) validateTSDB() {
 	t := c.TSDB
@@ -379,7 +392,7 @@ func (c Case) realClient(st int, rec *frameRec) store.Client {
 	name := fmt.Sprintf("store-%d", st)
 	tc := &storetestutil.TestClient{
 		Name:        name,
-		StoreClient: &recClient{StoreClient: storepb.ServerAsClient(ts, atomic.Bool{}), name: name, rec: rec},
+		StoreClient: &recClient{StoreClient: storepb.ServerAsClient(safeServer{ts}, atomic.Bool{}), name: name, rec: rec},
 		MinTime:     math.MinInt64, MaxTime: math.MaxInt64, WithoutReplicaLabelsEnabled: true,
 	}
 	if !extLset.IsEmpty() {
